@@ -31,6 +31,22 @@ CLAIMED['C17'] = dict(
    text='Proof. loader.rs decode_raw_bytes (UTF-32 -> UTF-16 -> UTF-8 -> Latin-1 cascade with its length and leading-byte heuristics, char::from_u32, String::from_utf16, strict String::from_utf8) and the BOM removal of load() are modelled on byte lists. Theorem C17_decode_encode: for each of the 10 encodings and EVERY text (any length, any scalar values incl. non-BMP, no NUL, first character ASCII) the string handed to the tokenizer is the UTF-8 form of the text - so load(path) and load_from_string(text) run on identical input. Also: Latin-1 fallback, UTF-8 encoder output always valid, UTF-16 round trip; all closed under the global context. Tie: extracted model vs the real decode_raw_bytes (cfg hook) byte for byte on encoded documents in all length residues and on random / malformed / truncated byte strings; oracle: a2lfile::load on a real file equals load_from_string (model and written text).',
    note='Hypothesis forced by the proof: no NUL character in the text (a BOM-less UTF-16LE text whose second character is NUL would be taken for UTF-32). std::fs is trusted to return the bytes on disk. Totality is by construction of the model (no partial operation) and validated on random bytes.',
    design='8 C17')
+LOADTIE = ' Tie: the grammar term is regenerated from specification.rs by the token-pattern translator on every run; the extracted generic parser+writer model and the real load_from_string / write_to_string are run on the same grammar-derived documents and compared on the complete model dump (every field, offset, uid, comment), every diagnostic (variant, line, text) and the written text.'
+CLAIMED['C01'] = dict(
+   technique='Coq proofs of the lexeme-level inverses (escape/unescape, string scanning, integer text for all 8 types), closed obligation writer_consistent over the regenerated grammar, generic parser/writer model tied by differential; whole-document round trip evaluated by oracle (partial)',
+   text='Proof (partial for the whole-document statement). Proved for all inputs: unescape(escape s) = s; the tokenizer cuts a written string exactly at its closing quote; get_integer(add_integer v) = (v, notation) for every value of every field type; the scanner is total; closed obligation: each of the 165 shipped stringify/PartialEq bodies is the writer-template instance of its grammar entry (every parsed field written once, in order, with its own location). The statement load(write(M)) = M for the generic parser/writer pair over all grammars is not yet a theorem (staged frame lemma, DESIGN 8/C01.6): it is evaluated on the real library over three cycles on every generated document.' + LOADTIE,
+   note='Float text <-> f64 of Rust std is an oracle (table computed by the implementation per case). A2ML-described IF_DATA is compared on the implementation only. Known finding: position-restricted reordering (RECORD_LAYOUT) changes list order on the first reload. API-built models are not yet generated.',
+   design='8 C01')
+CLAIMED['C02'] = dict(
+   technique='Coq proofs: accepted integer literals are in range / hex literals fit the width (no silent change), writer/parser inverses, closed obligation every-field-written-once; generic parser/writer model tied by differential; token-sequence oracle',
+   text='Proof (partial for the whole-document statement). Proved: whatever get_integer accepts lies in the range of the field type, a hex literal is accepted only if it fits the bit width (C02_accepted_integer_fits, C02_hex_literal_fits_width); integers and strings written are read back identically; closed obligation: every parsed field is written exactly once. Token preservation for whole documents is evaluated by an independent scanner on the implementation (input vs written text, up to number/escape notation and position reordering), with a boundary sweep of every integer field type x {min-1..2^64} x {dec, hex} and uninterpreted IF_DATA numbers.' + LOADTIE,
+   note='Known finding: numbers in uninterpreted IF_DATA are stored as i32/f32. Float fields: a literal is identified with the f64 it denotes.',
+   design='8 C02')
+CLAIMED['C05'] = dict(
+   technique='Coq proofs: scanner token lines are monotone and >= 1 (no u32 underflow in line arithmetic), writer whitespace replays an offset as exactly n line breaks, closed obligation each field is written with its own location; generic parser/writer model tied by differential; line-by-line oracle',
+   text='Proof (partial for the whole-document statement). Proved: the tokenizer assigns non-decreasing line numbers starting at 1 for every input; add_whitespace for offset n>0 emits exactly n line breaks; every shipped stringify writes each field with its own stored location (closed obligation). That every token of write(load(T)) stands on its input line is evaluated on the real library for documents of the property\'s layout class (random line breaks, blank lines, block-level comments, dropped comments), and the writer\'s own format is checked to be a byte-exact fixpoint.' + LOADTIE,
+   note='Edit locality (single-field edit / push / remove through the API) is not yet exercised: partial.',
+   design='8 C05')
 REASON_TODO = 'not yet implemented in this round (model/theorems planned in DESIGN.md section 8); no claim is made'
 
 def main():
